@@ -46,6 +46,80 @@ func bigIndexHistory(g *Gen, n int) []J {
 	return lines
 }
 
+// nestedIndexHistory: an index on a dotted path (n.a) while the documents' enclosing object n is written in every
+// way the API offers - whole-object replacement through Update (map), UpdateFunc, UpdateById, ReplaceById, the
+// path itself, a scalar in place of the object, removal and re-insertion under the same id - with queries
+// through that index (ranges covering the old value, the new value, both; sorted by it) after every write.
+func nestedIndexHistory(h *HistGen) []J {
+	g := h.G
+	c := "nx"
+	lines := []J{opLine("createCollection", J{"coll": hx(c)})}
+	if g.pick(3) != 0 {
+		lines = append(lines, opLine("createIndex", J{"coll": hx(c), "field": hx("n.a")}))
+	}
+	ids := []string{}
+	docs := []interface{}{}
+	for j := 0; j < 5; j++ {
+		id := h.newId()
+		ids = append(ids, id)
+		m := map[string]interface{}{"_id": id, "x": int64(j)}
+		if j != 3 {
+			m["n"] = map[string]interface{}{"a": int64(10 * (j + 1)), "b": int64(j)}
+		}
+		docs = append(docs, encDoc(m))
+	}
+	lines = append(lines, opLine("insert", J{"coll": hx(c), "docs": docs}), opLine("createIndex", J{"coll": hx(c), "field": hx("n.a")}), opLine("createIndex", J{"coll": hx(c), "field": hx("n.b")}))
+	probe := func() {
+		for _, q := range []J{
+			{"coll": hx(c), "crit": J{"cmp": []interface{}{"ge", hx("n.a"), J{"lit": encValue(int64(0))}}}},
+			{"coll": hx(c), "crit": J{"cmp": []interface{}{"le", hx("n.a"), J{"lit": encValue(int64(25))}}}},
+			{"coll": hx(c), "crit": J{"cmp": []interface{}{"gt", hx("n.a"), J{"lit": encValue(int64(25))}}}},
+			{"coll": hx(c), "crit": J{"cmp": []interface{}{"eq", hx("n.a"), J{"lit": nil}}}},
+			{"coll": hx(c), "sort": []interface{}{[]interface{}{hx("n.a"), 1 - 2*g.pick(2)}}},
+			{"coll": hx(c), "crit": J{"cmp": []interface{}{"ge", hx("n.b"), J{"lit": encValue(int64(1))}}}},
+		} {
+			lines = append(lines, opLine([]string{"findAll", "count"}[g.pick(2)], J{"q": q}))
+		}
+	}
+	probe()
+	obj := func() interface{} {
+		m := map[string]interface{}{}
+		if g.pick(5) != 0 {
+			m["a"] = int64(g.pick(60))
+		}
+		if g.pick(2) == 0 {
+			m["b"] = int64(g.pick(5))
+		}
+		return encValue(m)
+	}
+	sel := func() J {
+		return J{"coll": hx(c), "crit": J{"cmp": []interface{}{[]string{"ge", "le", "eq"}[g.pick(3)], hx("x"), J{"lit": encValue(int64(g.pick(5)))}}}}
+	}
+	for i := 0; i < 8; i++ {
+		id := ids[g.pick(len(ids))]
+		switch g.pick(8) {
+		case 0, 1:
+			lines = append(lines, opLine("update", J{"q": sel(), "upd": J{"setAll": []interface{}{[]interface{}{hx("n"), obj()}}}, "viaUpdate": 1}))
+		case 2:
+			lines = append(lines, opLine("update", J{"q": sel(), "upd": J{"setAll": []interface{}{[]interface{}{hx("n"), obj()}}}}))
+		case 3:
+			lines = append(lines, opLine("updateById", J{"coll": hx(c), "id": hx(id), "upd": J{"setAll": []interface{}{[]interface{}{hx("n"), obj()}}}}))
+		case 4:
+			lines = append(lines, opLine("update", J{"q": sel(), "upd": J{"setAll": []interface{}{[]interface{}{hx("n.a"), encValue(int64(g.pick(60)))}}}, "viaUpdate": 1}))
+		case 5:
+			lines = append(lines, opLine("update", J{"q": sel(), "upd": J{"setAll": []interface{}{[]interface{}{hx("n"), encValue([]interface{}{int64(7), "s", nil}[g.pick(3)])}}}, "viaUpdate": 1}))
+		case 6:
+			lines = append(lines, opLine("replaceById", J{"coll": hx(c), "id": hx(id), "doc": encDoc(map[string]interface{}{"_id": id, "x": int64(g.pick(5)), "n": map[string]interface{}{"a": int64(g.pick(60))}})}))
+		default:
+			lines = append(lines, opLine("deleteById", J{"coll": hx(c), "id": hx(id)}),
+				opLine("insert", J{"coll": hx(c), "docs": []interface{}{encDoc(map[string]interface{}{"_id": id, "x": int64(g.pick(5)), "n": map[string]interface{}{"a": int64(g.pick(60))}})}}))
+		}
+		probe()
+	}
+	lines = append(lines, J{"k": "dump"})
+	return lines
+}
+
 func streamHistories(c *Ctx, cfg HistCfg, what string) {
 	c.Rule = "random histories (" + what + ") over 2-3 collections with prefix-related names, documents with mixed-type/absent/nil/nested fields drawn from a per-history value pool, " +
 		"index create/drop interleaved; every operation's result compared impl vs Lean model vs Lean spec; non-trivial = distinct (operation, canonical result) where the result is not an error and, for queries, at least one document matched and one did not"
@@ -64,9 +138,25 @@ func streamHistories(c *Ctx, cfg HistCfg, what string) {
 			o := runHistory(dr, im, lines, HistOpts{})
 			recordHistory(c, lines, &o, be)
 			if o.Index >= 0 {
-				reportHistoryProblem(c, dr, im, lines, &o, be, HistOpts{}, what)
-				im.Destroy()
-				return
+				if reportHistoryProblem(c, dr, im, lines, &o, be, HistOpts{}, what) {
+					im.Destroy()
+					return
+				}
+			}
+		}
+		if cfg.Indexes {
+			for r := 0; r < c.N(6, 60); r++ {
+				g := NewGen(c.Rng, dm)
+				lines := nestedIndexHistory(NewHistGen(g, 1, 1))
+				o := runHistory(dr, im, lines, HistOpts{})
+				recordHistory(c, lines, &o, be)
+				c.Count("nested-index-history")
+				if o.Index >= 0 {
+					if reportHistoryProblem(c, dr, im, lines, &o, be, HistOpts{}, what) {
+						im.Destroy()
+						return
+					}
+				}
 			}
 		}
 		for hN := 0; hN < nHist; hN++ {
@@ -84,9 +174,10 @@ func streamHistories(c *Ctx, cfg HistCfg, what string) {
 			o := runHistory(dr, im, lines, hopts)
 			recordHistory(c, lines, &o, be)
 			if o.Index >= 0 {
-				reportHistoryProblem(c, dr, im, lines, &o, be, hopts, what)
-				im.Destroy()
-				return
+				if reportHistoryProblem(c, dr, im, lines, &o, be, hopts, what) {
+					im.Destroy()
+					return
+				}
 			}
 		}
 		im.Destroy()
@@ -133,7 +224,13 @@ func recordHistory(c *Ctx, lines []J, o *HistoryOutcome, be string) {
 	}
 }
 
-func reportHistoryProblem(c *Ctx, dr *Driver, im *Impl, lines []J, o *HistoryOutcome, be string, opts HistOpts, stream string) {
+// searchMode: a correspondence has broken earlier in this run without a failing input; every later history is run
+// with the property's own oracles only (HistOpts.SpecOnly), which is the search phase of DESIGN §2.5
+var searchMode = false
+
+// reportHistoryProblem reports what a history run found; true = a concrete violation was reported (the stream
+// stops), false = only a correspondence broke (recorded; the stream goes on in search mode)
+func reportHistoryProblem(c *Ctx, dr *Driver, im *Impl, lines []J, o *HistoryOutcome, be string, opts HistOpts, stream string) bool {
 	if o.Kind != "spec" {
 		// a correspondence broke (model and implementation differ while the oracle held so far): search the
 		// whole history with the property's own oracles for a concrete failing input before giving up
@@ -141,11 +238,10 @@ func reportHistoryProblem(c *Ctx, dr *Driver, im *Impl, lines []J, o *HistoryOut
 		so.SpecOnly = true
 		if o3 := runHistory(dr, im, lines, so); o3.Index >= 0 && o3.Kind == "spec" {
 			c.Count("search-after-break:found")
-			reportHistoryProblem(c, dr, im, lines, &o3, be, so, stream)
-			return
+			return reportHistoryProblem(c, dr, im, lines, &o3, be, so, stream)
 		} else if o3.Index < 0 && !compareTwins(c, lines, &o3, be) {
 			c.Count("search-after-break:found-by-twins")
-			return
+			return true
 		}
 		c.Count("search-after-break:none")
 	}
@@ -163,7 +259,11 @@ func reportHistoryProblem(c *Ctx, dr *Driver, im *Impl, lines []J, o *HistoryOut
 	}
 	if kind == "spec" {
 		c.Violation(rep)
-		return
+		return true
 	}
-	c.Unexplained(rep, "correspondence K-"+c.Prop+"/"+stream+" ("+kind+")")
+	if !searchMode {
+		c.Unexplained(rep, "correspondence K-"+c.Prop+"/"+stream+" ("+kind+")")
+	}
+	searchMode = true
+	return false
 }
